@@ -35,6 +35,7 @@ func init() {
 			{Name: "maxmin", Run: runMaxMin},
 			{Name: "rounding", Run: runRounding},
 			{Name: "kinds", Run: runKinds},
+			{Name: "carriers", Run: runCarriers},
 			{Name: "predicates", Run: runPredicates, Solo: true},
 			{Name: "random", Run: runRandom, Solo: true},
 			{Name: "encode", Run: runEncode},
@@ -42,6 +43,8 @@ func init() {
 			{Name: "decode", Run: runDecode},
 			{Name: "unescape", Run: runUnescape},
 			{Name: "passthrough", Run: runPassthrough},
+			{Name: "routes", Run: runRoutes},
+			{Name: "hexcase", Run: runHexCase},
 		},
 		Assumptions: []string{
 			"ref/mathspec is a faithful transcription of the bullets of ES5.1 15.8.2 (self-check: bullets that apply to the same tuple must agree, exact definitions must agree with bullets)",
@@ -76,6 +79,7 @@ type machine struct {
 	nbegin int
 
 	throwSamples int
+	twins        map[string]float64
 }
 
 func newMachine(r *engine.Run) *machine {
